@@ -85,6 +85,8 @@ PROPS['C18'] = dict(modules=['Hagall.Props.C18'], profiles=['latency', 'mixed'],
                     extra=['latency_stats'], topics=slice_of(['signedLatency', 'pingResp', 'ping'], outs={'pingReq', 'latencyResp', 'error', 'pingResp'}))
 PROPS['C19'] = dict(modules=['Hagall.Props.C19'], profiles=['malformed', 'mixed'], n=(160, 3000), focus={'receipt'}, tools=['drive', 'extract', 'receipts'],
                     extra=['receipts_harness'], topics=slice_of(['receipt', 'drain'], kinds=[]))
+PROPS['C15'] = dict(modules=['Hagall.Props.C15'], profiles=['mixed'], n=(20, 20), focus=None, tools=['drive', 'extract', 'auth'],
+                    extra=['auth_harness'], topics=slice_of([], kinds=[]))
 
 # every property's obligations include the facts it rests on (regenerated from the source on every run)
 ABS = {'C14': ['Hagall.Gen.AbsCustom'], 'C17': ['Hagall.Gen.AbsFlags'], 'C04': ['Hagall.Gen.AbsDispatch'],
